@@ -1,4 +1,5 @@
 import WtfModel.Model.Cli
+import WtfModel.Model.JsonText
 import Driver.Util
 
 /-!
@@ -6,12 +7,18 @@ import Driver.Util
 
   Op lines of one case (all text as hex tokens, `-` = empty):
       doc <id> <command> <description> <niche> <keywords> <platforms> <j-command> <j-description> <j-niche> <j-keywords> <j-platforms>
-            the text of one database entry and encoding/json's rendering of each string (oracle)      -> ok
+            the text of one database entry and encoding/json's rendering of each string.  The renderings are NOT inputs
+            of the model any more: strings are rendered by `Wtf.JsonText.jsonStrModel` (Model/KeyJson.lean's encoder, the
+            one `Wtf.C17.json_wellformed` is about); each real rendering is compared with the model's
+                                                                                   -> ok | oracle-differs-from-model jsonStr …
       hist <max_size> <q1:n1,q2:n2,...>  the history as loaded (query:results_count, oldest first)       -> ok
       search <limit> <verbose> <format> <no-color flag> <NO_COLOR set> <validated query | !> <load ok> <context description>
              <engine answer: id:bits:f1:json,...> <recovery answer: ! | id:bits:f1:json:pass,...>
             -> <stage> <printed ids> <format> <uses escapes> <history queries:counts after> <result block>
-  `f1` / `json` are strconv's `%.1f` and encoding/json's renderings of the score (oracle values).
+  `f1` / `json` are strconv's `%.1f` and encoding/json's renderings of the score (oracle values; the float formatter is not
+  modelled).  For a printed JSON block the driver also checks what the theorem assumes and concludes: every score token it
+  wrote is a number token (`isNumTok`, hypothesis `NumOK`), and the block parses, with `Wtf.JsonText.parseText`, to
+  `expectedJson` of the items; otherwise the answer is `numok-violated …` / `model-block-not-json …`.
   Stages are reported as the outside world can see them: `rejected` (nothing printed, history untouched),
   `nothing` (no result block, history updated), `printed`.
 -/
@@ -20,7 +27,6 @@ open Wtf Wtf.Cli
 
 structure DS where
   docs : List (Nat × Doc) := []
-  jstr : List (Bytes × Bytes) := []          -- text -> JSON string
   hist : History.State := { entries := [], maxSize := Wtf.Gen.Cli.historyMax }
 
 def hx (b : Bytes) : String := Bytes.toHex b
@@ -51,10 +57,10 @@ def lookupBy {α β : Type} [BEq α] (k : α) : List (α × β) → Option β
   | [] => none
   | (a, b) :: rest => if a == k then some b else lookupBy k rest
 
-def fmtOf (d : DS) (hits : List Hit) : Fmt Float :=
+def fmtOf (hits : List Hit) : Fmt Float :=
   { fmtFloat := fun p s =>
       if p == 1 then (match hits.find? (fun h => h.score.toBits == s.toBits) with | some h => h.f1 | none => bs "?f1?") else bs "?prec?",
-    jsonStr := fun b => (lookupBy b d.jstr).getD (bs "?json?"),
+    jsonStr := JsonText.jsonStrModel,
     jsonNum := fun s => match hits.find? (fun h => h.score.toBits == s.toBits) with | some h => h.js | none => bs "?num?" }
 
 def stageTok : Stage → String
@@ -75,8 +81,13 @@ def step (d : DS) (l : String) : DS × String :=
       match Bytes.ofHex jc, Bytes.ofHex jd, Bytes.ofHex jn, bytesList? jks, bytesList? jps with
       | some jc, some jd, some jn, some jks, some jps =>
         let doc : Doc := { command := c, description := de, niche := n, keywords := ks, platform := ps }
-        ({ d with docs := (i, doc) :: d.docs,
-                  jstr := (c, jc) :: (de, jd) :: (n, jn) :: (ks.zip jks ++ ps.zip jps ++ d.jstr) }, "ok")
+        let pairs := (c, jc) :: (de, jd) :: (n, jn) :: (ks.zip jks ++ ps.zip jps)
+        let verdict :=
+          if ks.length != jks.length || ps.length != jps.length then "oracle-differs-from-model jsonStr list-lengths"
+          else match pairs.find? (fun p => JsonText.jsonStrModel p.1 != p.2) with
+            | none => "ok"
+            | some p => s!"oracle-differs-from-model jsonStr text={hx p.1} model={hx (JsonText.jsonStrModel p.1)} oracle={hx p.2}"
+        ({ d with docs := (i, doc) :: d.docs }, verdict)
       | _, _, _, _, _ => (d, "bad-op")
     | _, _, _, _, _, _ => (d, "bad-op")
   | ["hist", m, qs] =>
@@ -107,13 +118,26 @@ def step (d : DS) (l : String) : DS × String :=
             gate := fun _ i => match allHits.find? (fun h => h.id == i) with | some h => h.pass | none => false,
             ctxDesc := ctx, hist := d.hist, now := 1,
             docs := fun i => (lookupBy i d.docs).getD {},
-            envNoColor := boolOf envnc, F := fmtOf d allHits }
+            envNoColor := boolOf envnc, F := fmtOf allHits }
         let o := cliSearch fl w
         let entTok := fun (e : History.Entry) => s!"{hx e.query}:{e.results}"
         let histTok := match o.histAfter with
           | some (.ok h) => listTok (h.entries.map entTok)
           | some (.error _) => "panic"
           | none => listTok (d.hist.entries.map entTok)
+        -- what `json_wellformed` assumes of the number formatter and concludes of the block, on this run
+        let isJson := o.stage == .printed && o.format == .json
+        let badNum := if isJson && fl.verbose then
+            (o.results.filter (fun r => !isZeroScore r.2)).find? (fun r => !JsonText.isNumTok (w.F.jsonNum r.2))
+          else none
+        let parsesBack := !isJson ||
+          (match JsonText.parseText o.block with
+           | some v => JsonText.JVal.beq v (JsonText.expectedJson w.F o.jsonItems)
+           | none => false)
+        match badNum with
+        | some r => (d, s!"numok-violated {hx (w.F.jsonNum r.2)}")
+        | none =>
+        if !parsesBack then (d, s!"model-block-not-json {hx o.block}") else
         (d, s!"{stageTok o.stage} {listTok (o.results.map (fun r => toString r.1))} {fmtTok o.format} {if o.usesEscapes then 1 else 0} {histTok} {hx o.block}")
       | _, _ => (d, "bad-op")
     | _, _, _, _ => (d, "bad-op")
